@@ -1,454 +1,76 @@
-import MinterModel.Ledger
-import MinterModel.Kernels
-import MinterModel.Parse
-import MinterModel.Moves
+import MinterModel.TxBase
+import MinterModel.TxLedger
+import MinterModel.TxBancor
+import MinterModel.TxStake
+import MinterModel.TxCand
+import MinterModel.TxPool
 /-
-  L2: transaction execution (ExecutorV3.RunTx + the data handlers), written with L0 kernels and L1 primitives.
-  A handler computes a response code and a *plan* (list of primitives); the state changes only by applying the plan.
+  L2: transaction execution (`ExecutorV3.RunTx`): the prologue, the price conversion, the dispatch to the data handlers
+  (TxLedger / TxBancor / TxStake / TxCand / TxPool), the deliver-side execution of a validated transaction, the failure fee,
+  and CheckTx.  A handler computes a response code or a plan; the state changes only by applying the plan.
 -/
 namespace Minter
 
-structure Params where
-  chain : Nat := 2
-  period : Nat := 12
-  expire : Nat := 30
-  unbond : Nat := 531
-  move : Nat := 177
-  jail : Nat := 354
-  initial : Nat := 10200001
-  lockStakeGate : Nat := 10197360
-  maxTxLen : Nat := 16144
-  maxPayload : Nat := 10000
-  maxService : Nat := 128
-  minReserve : Int := 10000000000000000000000      -- 10 000 BIP
-  maxSupply : Int := 1000000000000000000000000000000000
-  deriving Repr
-
-/-- Float / crypto functions answered by the real code. -/
-inductive OQ where
-  | saleAmount (volume reserve : Int) (crr : Nat) (wantReceive : Int)
-  | saleReturn (volume reserve : Int) (crr : Nat) (sell : Int)
-  | purchaseReturn (volume reserve : Int) (crr : Nat) (deposit : Int)
-  | purchaseAmount (volume reserve : Int) (crr : Nat) (wantReceive : Int)
-  deriving Repr, DecidableEq
-
-abbrev Oracle := OQ → Option Int
-
-inductive Stop where
-  | need (q : OQ)
-  | unmodelled (why : String)
-  | panic (site : String)
-  deriving Repr
-
-abbrev M := Except Stop
-
-def ask (o : Oracle) (q : OQ) : M Int :=
-  match o q with
-  | some v => pure v
-  | none => throw (.need q)
-
-/-- Decoded transaction as the real decoder sees it (header + recovered signers + data fields). -/
-structure TxIn where
-  dec : Bool := false
-  tooLarge : Bool := false
-  rawLen : Nat := 0
-  typ : Nat := 0
-  nonce : Nat := 0
-  chain : Nat := 0
-  gasPrice : Nat := 0
-  gasCoin : Coin := 0
-  payLen : Nat := 0
-  svcLen : Nat := 0
-  sigType : Nat := 0
-  sigOk : Bool := false
-  sender : Addr := 0
-  signers : List (Option Addr) := []
-  f : List (String × String) := []
-  deriving Repr
-
-/-- `tx.CommissionCoin()`: the coin being sold for the two sell-all types, the gas coin otherwise. -/
-def TxIn.comCoin (t : TxIn) : Coin :=
-  let g := fun k => (t.f.lookup k).getD "0"
-  if t.typ == 3 then natD (g "d.CoinToSell")
-  else if t.typ == 25 then natD (((g "d.Coins").splitOn ",").headD "0")
-  else t.gasCoin
-
-def TxIn.nat (t : TxIn) (k : String) : Nat := natD ((t.f.lookup k).getD "0")
-def TxIn.int (t : TxIn) (k : String) : Int := intD ((t.f.lookup k).getD "0")
-def TxIn.hex (t : TxIn) (k : String) : Nat := hexNat ((t.f.lookup k).getD "0")
-def TxIn.str (t : TxIn) (k : String) : String := (t.f.lookup k).getD ""
-def TxIn.bool (t : TxIn) (k : String) : Bool := (t.f.lookup k).getD "" == "true"
-
-def TxIn.ofKV (l : List (String × String)) : TxIn :=
-  let g := fun k => (l.lookup k).getD ""
-  { dec := g "dec" == "1", tooLarge := g "dec" == "toolarge", rawLen := natD (g "rawlen"), typ := natD (g "typ"), nonce := natD (g "nonce"),
-    chain := natD (g "chain"), gasPrice := natD (g "gasprice"), gasCoin := natD (g "gascoin"), payLen := natD (g "paylen"),
-    svcLen := natD (g "svclen"), sigType := natD (g "sigtype"), sigOk := g "sigok" == "1", sender := hexNat (g "from"),
-    signers := if g "signers" == "" then [] else (g "signers").splitOn "," |>.map (fun x => if x == "bad" then none else some (hexNat x)),
-    f := l.filter (fun e => e.1.startsWith "d.") }
-
-structure Outcome where
-  code : Nat
-  moves : List Move := []
-  tags : List (String × String) := []
-  deriving Repr
-
-/-- The primitives an outcome applies to the state. -/
-def Outcome.plan (o : Outcome) : List Prim := planOf o.moves
-
-def priceOf (s : State) (k : String) : Int := (s.commission.lookup k).getD 0
-def priceCoin (s : State) : Coin := (priceOf s "coin").toNat
-
-/-! ### Pools (both orientations) -/
-
-def poolRes (s : State) (a b : Coin) : Option (Int × Int) :=
-  match getPool s a b with
-  | some p => some (p.r0, p.r1)
-  | none => match getPool s b a with
-    | some p => some (p.r1, p.r0)
-    | none => none
-
-def poolDelta (s : State) (a b : Coin) (da db : Int) : Prim :=
-  if (getPool s a b).isSome then .addPool a b da db else .addPool b a db da
-
-def pairHasOrders (s : State) (a b : Coin) : Bool :=
-  s.orders.any (fun o => (o.c0 == a && o.c1 == b) || (o.c0 == b && o.c1 == a))
-
-def burnAddress : Addr := hexNat "00cedde786b34d733d1dc96559253081572df2c6"
-
-/-- `CheckSwap(pool, …, valueIn, valueOut, isBuy)` for a pair without orders: error code or the computed amount. -/
-def checkSwapQuote (r0 r1 valueIn valueOut : Int) (isBuy : Bool) : M (Except Nat Int) :=
-  if isBuy then
-    match quoteSellForBuy r0 r1 valueOut with
-    | .panic w => throw (.panic w)
-    | .nil => pure (.error 703)
-    | .val x => if x > valueIn then pure (.error 302) else pure (.ok x)
-  else
-    match quoteBuyForSell r0 r1 valueIn with
-    | .panic w => throw (.panic w)
-    | .nil => pure (.error 703)
-    | .val x =>
-      let vo := if valueOut = 0 then 1 else valueOut
-      if x < vo then pure (.error 303) else pure (.ok x)
-
-/-- `PairSellWithOrders(a, b, amountIn, 0)` on a pair without orders, paid by `payer`; the proceeds go to the
-    fee pool (`toRewards`) or to `dest`. Returns the move and the amount received. -/
-def pairSellMove (s : State) (payer : Addr) (a b : Coin) (amountIn : Int) (toRewards : Bool) (dest : Addr) : M (Move × Int) :=
-  match poolRes s a b with
-  | none => throw (.panic "PairSellWithOrders on a missing pool")
-  | some (r0, r1) =>
-    if pairHasOrders s a b then throw (.unmodelled "orders on the pool") else
-    if amountIn ≤ 0 then throw (.panic "INSUFFICIENT_INPUT_AMOUNT") else
-    let net := amountIn - com1000 amountIn
-    if net ≤ 0 then throw (.panic "INSUFFICIENT_INPUT_AMOUNT") else
-    match bfsNoOrders r0 r1 net with
-    | .panic w => throw (.panic w)
-    | .nil => throw (.panic "INSUFFICIENT_OUTPUT_AMOUNT")
-    | .val out =>
-      if out ≤ 0 then throw (.panic "INSUFFICIENT_OUTPUT_AMOUNT") else
-      if (getPool s a b).isSome then pure (.poolSell payer a b true net out (com1000 amountIn) toRewards dest, out)
-      else pure (.poolSell payer b a false net out (com1000 amountIn) toRewards dest, out)
-
-/-! ### Commission -/
-
-structure Com where
-  commission : Int
-  inBase : Int
-  fromPool : Bool
-  deriving Repr
-
-def hasReserve (ci : CoinInfo) : Bool := ci.crr != 0
-
-/-- `CalculateCommission(gasCoin, commissionInBaseCoin)`. -/
-def calcCommission (P : Params) (o : Oracle) (s : State) (gas : Coin) (inBase : Int) : M (Except Nat Com) := do
-  if gas == 0 then return .ok ⟨inBase, inBase, false⟩
-  if inBase == 0 then return .ok ⟨0, inBase, false⟩
-  -- pool route
-  let fromPool : Except Nat Int ←
-    match poolRes s gas 0 with
-    | none => pure (.error 701)
-    | some (r0, r1) =>
-      if pairHasOrders s gas 0 then throw (.unmodelled "orders on the commission pool") else do
-      match ← checkSwapQuote r0 r1 P.maxSupply inBase true with
-      | .error c => pure (.error c)
-      | .ok x => if x ≤ 0 then pure (.error 703) else pure (.ok x)
-  -- reserve route
-  let fromReserve : Except Nat Int ←
-    match getCoin s gas with
-    | none => pure (.error 200)
-    | some ci =>
-      if !hasReserve ci then pure (.error 200)
-      else if ci.reserve - inBase < P.minReserve then pure (.error 116)
-      else do
-        let v ← ask o (.saleAmount ci.volume ci.reserve ci.crr inBase)
-        pure (.ok v)
-  match fromPool, fromReserve with
-  | .error _, .error _ => return .error 119
-  | .ok p, .ok r => if r < p then return .ok ⟨r, inBase, false⟩ else return .ok ⟨p, inBase, true⟩
-  | .ok p, .error _ => return .ok ⟨p, inBase, true⟩
-  | .error _, .ok r => return .ok ⟨r, inBase, false⟩
-
-/-- The deliver-side payment of a commission by `payer`: plan and the base-coin value that reached the rewards pool. -/
-def payCommission (s : State) (payer : Addr) (gas : Coin) (c : Com) : M (List Move × Int × Int) := do
-  if c.fromPool then
-    let (mv, out) ← pairSellMove s payer gas 0 c.commission true 0
-    return ([mv], c.commission, out)
-  else if gas != 0 then
-    return ([.feeBancor payer gas c.commission c.inBase], c.commission, c.inBase)
-  else
-    -- base coin: the Go code debits `commission` and credits `inBase` to the fee pool; they coincide (ComWF)
-    if c.commission != c.inBase then throw (.panic "model invariant: base-coin commission differs from its base value")
-    return ([.feeBase payer c.commission], c.commission, c.inBase)
-
-def typePriceName : Nat → Option String
-  | 1 => some "send" | 2 => some "sell_bancor" | 3 => some "sell_all_bancor" | 4 => some "buy_bancor"
-  | 6 => some "declare_candidacy" | 7 => some "delegate" | 8 => some "unbond" | 9 => some "redeem_check"
-  | 10 => some "set_candidate_on" | 11 => some "set_candidate_off" | 12 => some "create_multisig"
-  | 14 => some "edit_candidate" | 15 => some "set_halt_block" | 16 => some "recreate_coin" | 17 => some "edit_ticker_owner"
-  | 18 => some "edit_multisig" | 20 => some "edit_candidate_public_key" | 21 => some "add_liquidity" | 22 => some "remove_liquidity"
-  | 26 => some "edit_candidate_commission" | 27 => some "move_stake" | 28 => some "mint_token" | 29 => some "burn_token"
-  | 31 => some "recreate_token" | 32 => some "vote_commission" | 33 => some "vote_update" | 34 => some "create_swap_pool"
-  | 35 => some "add_limit_order" | 36 => some "remove_limit_order" | 37 => some "lock_stake" | 38 => some "lock"
-  | _ => none
-
-def listLen (v : String) : Nat := if v == "-" || v == "" then 0 else (v.splitOn ",").length
-
-def tickerPrice (s : State) (sym : String) : Int :=
-  match sym.length with
-  | 3 => priceOf s "create_ticker3" | 4 => priceOf s "create_ticker4" | 5 => priceOf s "create_ticker5"
-  | 6 => priceOf s "create_ticker6" | _ => priceOf s "create_ticker7_10"
-
-/-- `Data.CommissionData(price)` per transaction type. -/
-def typePrice (s : State) (t : TxIn) : Int :=
-  match t.typ with
-  | 13 => priceOf s "multisend_base" + ((listLen (t.str "d.List") : Int) - 1) * priceOf s "multisend_delta"
-  | 23 => priceOf s "sell_pool_base" + priceOf s "sell_pool_delta" * ((listLen (t.str "d.Coins") : Int) - 2)
-  | 24 => priceOf s "buy_pool_base" + priceOf s "buy_pool_delta" * ((listLen (t.str "d.Coins") : Int) - 2)
-  | 25 => priceOf s "sell_all_pool_base" + priceOf s "sell_all_pool_delta" * ((listLen (t.str "d.Coins") : Int) - 2)
-  | 5 => tickerPrice s (t.str "d.Symbol") + priceOf s "create_coin"
-  | 30 => tickerPrice s (t.str "d.Symbol") + priceOf s "create_coin"
-  | n => match typePriceName n with
-    | some k => priceOf s k
-    | none => 0
-
-/-- `tx.MulGasPrice(tx.Price(commissions))`. -/
-def txPrice (s : State) (t : TxIn) : Int :=
-  (t.gasPrice : Int) * (typePrice s t + ((t.payLen + t.svcLen : Nat) : Int) * priceOf s "payload_byte")
-
-def fail (c : Nat) : M Outcome := pure { code := c }
-
-/-! ### Handlers -/
-
-def parseMultisend (v : String) : List (Coin × Addr × Int) :=
-  if v == "-" || v == "" then [] else
-  (v.splitOn ",").filterMap (fun it => match it.splitOn ":" with
-    | [c, a, x] => some (natD c, hexNat a, intD x)
-    | _ => none)
-
-/-- Send. -/
-def runSend (P : Params) (o : Oracle) (s : State) (t : TxIn) (price : Int) : M Outcome := do
-  let coin := t.nat "d.Coin"; let to := t.hex "d.To"; let value := t.int "d.Value"
-  if !coinExists s coin then return ← fail 102
-  match ← calcCommission P o s t.gasCoin price with
-  | .error c => fail c
-  | .ok com =>
-    let need := if t.gasCoin == coin then value + com.commission else com.commission
-    if t.gasCoin != coin && balanceOf s t.sender coin < value then return ← fail 107
-    if balanceOf s t.sender t.gasCoin < need then return ← fail 107
-    let (pc, cAmt, cBase) ← payCommission s t.sender t.gasCoin com
-    return { code := 0, moves := pc ++ [.transfer t.sender to coin value],
-             tags := [("tx.commission_amount", toString cAmt), ("tx.commission_in_base_coin", toString cBase)] }
-
-def sumFor (items : List (Coin × Addr × Int)) (c : Coin) : Int :=
-  sumBy (fun it => if it.1 == c then it.2.2 else 0) items
-
-/-- Multisend. -/
-def runMultisend (P : Params) (o : Oracle) (s : State) (t : TxIn) (price : Int) : M Outcome := do
-  let items := parseMultisend (t.str "d.List")
-  if items.length < 1 || items.length > 100 then return ← fail 111
-  if items.any (fun it => !coinExists s it.1) then return ← fail 102
-  match ← calcCommission P o s t.gasCoin price with
-  | .error c => fail c
-  | .ok com =>
-    -- checkBalances: totals per coin (gas coin includes the commission)
-    let coins := (t.gasCoin :: items.map (·.1)).eraseDups
-    let short := coins.any (fun c => balanceOf s t.sender c < sumFor items c + (if c == t.gasCoin then com.commission else 0))
-    if short then return ← fail 107
-    let (pc, cAmt, cBase) ← payCommission s t.sender t.gasCoin com
-    let moves := items.map (fun it => Move.transfer t.sender it.2.1 it.1 it.2.2)
-    return { code := 0, moves := pc ++ moves,
-             tags := [("tx.commission_amount", toString cAmt), ("tx.commission_in_base_coin", toString cBase)] }
-
-/-! Shared shape of most handlers: compute the commission, run type specific checks, then pay the commission,
-    apply the type specific primitives and bump the nonce. -/
-
-def withCom (P : Params) (o : Oracle) (s : State) (t : TxIn) (price : Int) (k : Com → M Outcome) : M Outcome := do
-  match ← calcCommission P o s t.gasCoin price with
-  | .error c => fail c
-  | .ok com => k com
-
-def finish (s : State) (t : TxIn) (com : Com) (body : List Move) (tags : List (String × String) := []) : M Outcome := do
-  let (pc, cAmt, cBase) ← payCommission s t.sender t.gasCoin com
-  return { code := 0, moves := pc ++ body,
-           tags := [("tx.commission_amount", toString cAmt), ("tx.commission_in_base_coin", toString cBase)] ++ tags }
-
-def oneBip : Int := 1000000000000000000
-
-def isUpperOrDigit (c : Char) : Bool := ('A' ≤ c && c ≤ 'Z') || ('0' ≤ c && c ≤ '9')
-/-- `checkAllowSymbol`: `^[A-Z0-9]{3,10}$` and not a decimal number. -/
-def allowSymbol (sym : String) : Bool :=
-  3 ≤ sym.length && sym.length ≤ 10 && sym.toList.all isUpperOrDigit && !(sym.toList.all Char.isDigit)
-
-def baseSymbol (P : Params) : String := if P.chain == 1 then "BIP" else "MNT"
-def symbolExists (P : Params) (s : State) (sym : String) : Bool := sym == baseSymbol P || s.coins.any (·.symbol == sym)
-def coinBySymbolV0 (s : State) (sym : String) : Option CoinInfo := findFirst (fun ci => ci.symbol == sym && ci.version == 0) s.coins
-def symbolOwner (s : State) (sym : String) : Option Addr :=
-  match findFirst (fun ci => ci.symbol == sym && ci.owner.isSome) s.coins with
-  | some ci => ci.owner
-  | none => none
-def maxVersion (s : State) (sym : String) : Nat := (s.coins.filter (·.symbol == sym)).foldl (fun m ci => max m ci.version) 0
-def nextCoinId (s : State) : Coin := s.ncoins + 1
-
-
-/-- CreateCoin (5). -/
-def runCreateCoin (P : Params) (o : Oracle) (s : State) (t : TxIn) (price : Int) : M Outcome := do
-  let sym := t.str "d.Symbol"
-  let amount := t.int "d.InitialAmount"; let reserve := t.int "d.InitialReserve"; let crr := t.nat "d.ConstantReserveRatio"; let maxS := t.int "d.MaxSupply"
-  if (t.str "d.Name").length / 2 > 64 then return ← fail 204
-  if !allowSymbol sym then return ← fail 203
-  if symbolExists P s sym then return ← fail 201
-  if maxS > P.maxSupply then return ← fail 205
-  if amount < oneBip || amount > maxS then return ← fail 205
-  if reserve < P.minReserve then return ← fail 205
-  if crr < 10 || crr > 100 then return ← fail 202
-  withCom P o s t price fun com => do
-    if balanceOf s t.sender t.gasCoin < com.commission then return ← fail 107
-    let total := if t.gasCoin == 0 then reserve + com.inBase else reserve
-    if balanceOf s t.sender 0 < total then return ← fail 107
-    let id := nextCoinId s
-    let ci : CoinInfo := { id := id, symbol := sym, version := 0, volume := amount, reserve := reserve, crr := crr, maxSupply := maxS, owner := some t.sender, mintable := false, burnable := false }
-    finish s t com [.createCoin t.sender ci] [("tx.coin_id", toString id)]
-
-/-- CreateToken (30). -/
-def runCreateToken (P : Params) (o : Oracle) (s : State) (t : TxIn) (price : Int) : M Outcome := do
-  let sym := t.str "d.Symbol"
-  let amount := t.int "d.InitialAmount"; let maxS := t.int "d.MaxSupply"
-  let mintable := t.bool "d.Mintable"; let burnable := t.bool "d.Burnable"
-  if (t.str "d.Name").length / 2 > 64 then return ← fail 204
-  if !allowSymbol sym then return ← fail 203
-  if symbolExists P s sym then return ← fail 201
-  if !mintable && amount != maxS then return ← fail 205
-  if amount < 1 || amount > maxS then return ← fail 205
-  if maxS > P.maxSupply then return ← fail 205
-  withCom P o s t price fun com => do
-    if balanceOf s t.sender t.gasCoin < com.commission then return ← fail 107
-    let id := nextCoinId s
-    let ci : CoinInfo := { id := id, symbol := sym, version := 0, volume := amount, reserve := 0, crr := 0, maxSupply := maxS, owner := some t.sender, mintable := mintable, burnable := burnable }
-    finish s t com [.createCoin t.sender ci] [("tx.coin_id", toString id)]
-
-/-- RecreateCoin (16). -/
-def runRecreateCoin (P : Params) (o : Oracle) (s : State) (t : TxIn) (price : Int) : M Outcome := do
-  let sym := t.str "d.Symbol"
-  let amount := t.int "d.InitialAmount"; let reserve := t.int "d.InitialReserve"; let crr := t.nat "d.ConstantReserveRatio"; let maxS := t.int "d.MaxSupply"
-  if (t.str "d.Name").length / 2 > 64 then return ← fail 204
-  if amount < oneBip || amount > maxS then return ← fail 205
-  if maxS > P.maxSupply then return ← fail 205
-  if reserve < P.minReserve then return ← fail 205
-  if crr < 10 || crr > 100 then return ← fail 202
-  if sym == baseSymbol P then return ← fail 206
-  match coinBySymbolV0 s sym with
-  | none => fail 102
-  | some old =>
-    if symbolOwner s sym != some t.sender then return ← fail 206
-    withCom P o s t price fun com => do
-      if balanceOf s t.sender t.gasCoin < com.commission then return ← fail 107
-      if balanceOf s t.sender 0 < reserve then return ← fail 107
-      if t.gasCoin == 0 && balanceOf s t.sender 0 < reserve + com.commission then return ← fail 107
-      let id := nextCoinId s
-      let ci : CoinInfo := { id := id, symbol := sym, version := 0, volume := amount, reserve := reserve, crr := crr, maxSupply := maxS, owner := some t.sender, mintable := false, burnable := false }
-      finish s t com [.admin (.bumpVersion old.id (maxVersion s sym + 1)), .createCoin t.sender ci] [("tx.coin_id", toString id)]
-
-/-- RecreateToken (31). -/
-def runRecreateToken (P : Params) (o : Oracle) (s : State) (t : TxIn) (price : Int) : M Outcome := do
-  let sym := t.str "d.Symbol"
-  let amount := t.int "d.InitialAmount"; let maxS := t.int "d.MaxSupply"
-  let mintable := t.bool "d.Mintable"; let burnable := t.bool "d.Burnable"
-  if (t.str "d.Name").length / 2 > 64 then return ← fail 204
-  if !mintable && amount != maxS then return ← fail 205
-  if amount < 1 || amount > maxS then return ← fail 205
-  if maxS > P.maxSupply then return ← fail 205
-  if sym == baseSymbol P then return ← fail 206
-  match coinBySymbolV0 s sym with
-  | none => fail 102
-  | some old =>
-    if symbolOwner s sym != some t.sender then return ← fail 206
-    withCom P o s t price fun com => do
-      if balanceOf s t.sender t.gasCoin < com.commission then return ← fail 107
-      let id := nextCoinId s
-      let ci : CoinInfo := { id := id, symbol := sym, version := 0, volume := amount, reserve := 0, crr := 0, maxSupply := maxS, owner := some t.sender, mintable := mintable, burnable := burnable }
-      finish s t com [.admin (.bumpVersion old.id (maxVersion s sym + 1)), .createCoin t.sender ci] [("tx.coin_id", toString id)]
-
-/-- EditCoinOwner (17). -/
-def runEditCoinOwner (P : Params) (o : Oracle) (s : State) (t : TxIn) (price : Int) : M Outcome := do
-  let sym := t.str "d.Symbol"
-  if !symbolExists P s sym then return ← fail 102
-  if symbolOwner s sym != some t.sender then return ← fail 206
-  withCom P o s t price fun com => do
-    if balanceOf s t.sender t.gasCoin < com.commission then return ← fail 107
-    finish s t com [.admin (.setCoinOwner sym (t.hex "d.NewOwner"))]
-
-/-- MintToken (28). -/
-def runMintToken (P : Params) (o : Oracle) (s : State) (t : TxIn) (price : Int) : M Outcome := do
-  let coin := t.nat "d.Coin"; let value := t.int "d.Value"
-  if coin == 0 then return ← fail 801        -- the base coin is not mintable
-  match getCoin s coin with
-  | none => fail 102
-  | some ci =>
-    if !ci.mintable then return ← fail 801
-    if ci.volume + value > ci.maxSupply then return ← fail 206
-    if ci.version != 0 || symbolOwner s ci.symbol != some t.sender then return ← fail 206
-    withCom P o s t price fun com => do
-      if balanceOf s t.sender t.gasCoin < com.commission then return ← fail 107
-      finish s t com [.mint t.sender coin value]
-
-/-- BurnToken (29). -/
-def runBurnToken (P : Params) (o : Oracle) (s : State) (t : TxIn) (price : Int) : M Outcome := do
-  let coin := t.nat "d.Coin"; let value := t.int "d.Value"
-  if coin == 0 then return ← fail 802
-  match getCoin s coin with
-  | none => fail 102
-  | some ci =>
-    if !ci.burnable then return ← fail 802
-    if ci.volume - value < 1 then return ← fail 206
-    withCom P o s t price fun com => do
-      if balanceOf s t.sender t.gasCoin < com.commission then return ← fail 107
-      let need := if t.gasCoin == coin then value + com.commission else value
-      if balanceOf s t.sender coin < need then return ← fail 107
-      finish s t com [.mint t.sender coin (-value)]
-
-/-- Dispatch on the transaction type. Types without a model raise `Stop.unmodelled`. -/
-def runData (P : Params) (o : Oracle) (s : State) (_block : Nat) (t : TxIn) (price : Int) : M Outcome :=
+/-- Dispatch on the transaction type: the validation half of `Data.Run`. -/
+def runData (P : Params) (o : Oracle) (s : State) (block : Nat) (t : TxIn) (price : Int) : Handler :=
   match t.typ with
   | 1 => runSend P o s t price
-  | 13 => runMultisend P o s t price
+  | 2 => runSellCoin P o s t price
+  | 3 => runSellAllCoin P o s t price
+  | 4 => runBuyCoin P o s t price
   | 5 => runCreateCoin P o s t price
-  | 30 => runCreateToken P o s t price
+  | 6 => runDeclare P o s block t price
+  | 7 => runDelegate P o s t price
+  | 8 => runUnbond P o s block t price
+  | 9 => runRedeemCheck P o s block t price
+  | 10 => runSetOn P o s block t price
+  | 11 => runSetOff P o s t price
+  | 12 => runCreateMultisig P o s t price
+  | 13 => runMultisend P o s t price
+  | 14 => runEditCandidate P o s t price
+  | 15 => runSetHalt P o s block t price
   | 16 => runRecreateCoin P o s t price
-  | 31 => runRecreateToken P o s t price
   | 17 => runEditCoinOwner P o s t price
+  | 18 => runEditMultisig P o s t price
+  | 20 => runEditPubKey P o s t price
+  | 21 => runAddLiquidity P o s t price
+  | 22 => runRemoveLiquidity P o s t price
+  | 23 => runSellPool P o s t price
+  | 24 => runBuyPool P o s t price
+  | 25 => runSellAllPool P o s t price
+  | 26 => runEditCommission P o s block t price
+  | 27 => runMoveStake P o s block t price
   | 28 => runMintToken P o s t price
   | 29 => runBurnToken P o s t price
+  | 30 => runCreateToken P o s t price
+  | 31 => runRecreateToken P o s t price
+  | 32 => runVoteCommission P o s block t price
+  | 33 => runVoteUpdate P o s block t price
+  | 34 => runCreatePool P o s t price
+  | 35 => runAddOrder P o s block t price
+  | 36 => runRemoveOrder P o s block t price
+  | 37 => runLockStake P o s block t price
+  | 38 => runLock P o s block t price
   | n => throw (.unmodelled s!"tx type {n}")
 
-def modelledTypes : List Nat := [1, 13, 5, 30, 16, 31, 17, 28, 29]
+/-- Every transaction type the decoder knows (1–18, 20–38). Swap routes and commissions through pools that carry limit
+    orders still stop with `Stop.unmodelled "orders on …"` (order matching is a separate component). -/
+def modelledTypes : List Nat :=
+  [1, 2, 3, 4, 5, 6, 7, 8, 9, 10, 11, 12, 13, 14, 15, 16, 17, 18, 20, 21, 22, 23, 24, 25, 26, 27, 28, 29, 30, 31, 32, 33, 34, 35, 36, 37, 38]
 
-/-- Does executing this transaction read state outside the live projection (orders, stakes, …)? -/
-def readsOther (t : TxIn) : Bool := t.gasCoin != 0 || t.sigType == 2 || !([1, 13, 5, 30, 16, 31, 17, 28, 29].contains t.typ)
+/-- Does executing this transaction read state outside the live projection?  Since the projection carries candidates, stakes,
+    updates, waitlist, frozen funds, multisigs, stake locks, used checks, votes and orders: no modelled type does. -/
+def readsOther (t : TxIn) : Bool := !(modelledTypes.contains t.typ)
 
-/-! ### ExecutorV3.RunTx (deliver) -/
+/-! ### ExecutorV3.RunTx -/
+
+def isMultisig (s : State) (a : Addr) : Option Multisig :=
+  match s.multisigs.lookup a with
+  | some ms => if ms.owners.isEmpty then none else some ms
+  | none => none
 
 def multisigCheck (s : State) (t : TxIn) : Option Nat :=
-  match s.multisigs.lookup t.sender with
+  match isMultisig s t.sender with
   | none => some 603
   | some ms =>
     if t.signers.length > 32 || ms.owners.length < t.signers.length then some 604
@@ -460,50 +82,15 @@ def multisigCheck (s : State) (t : TxIn) : Option Nat :=
         | some a :: r => if used.contains a then some 606 else go r (a :: used) (w + ((ms.owners.lookup a).getD 0))
       go t.signers [] 0
 
-/-- The failure-fee branch of RunTx (deliver only). -/
-def failFee (P : Params) (o : Oracle) (s : State) (t : TxIn) (code : Nat) : M Outcome := do
-  let inBase0 := (t.gasPrice : Int) * (priceOf s "failed_tx" + ((t.payLen + t.svcLen : Nat) : Int) * priceOf s "payload_byte")
-  if priceCoin s != 0 then throw (.unmodelled "price table in a custom coin")
-  match ← calcCommission P o s t.comCoin inBase0 with
-  | .error c => fail c
-  | .ok com =>
-    if t.typ == 9 then throw (.unmodelled "failed RedeemCheck: issuer pays")
-    let payer := t.sender
-    let bal := balanceOf s payer t.comCoin
-    if bal ≤ 0 then return { code := code }
-    let com' : Except Nat Com ←
-      if bal < com.commission then
-        if com.fromPool then
-          match poolRes s t.comCoin 0 with
-          | none => throw (.panic "missing commission pool")
-          | some (r0, r1) =>
-            match ← checkSwapQuote r0 r1 bal 0 false with
-            | .error c => pure (.error c)
-            | .ok x => if x ≤ 0 then pure (.error 119) else pure (.ok ⟨bal, x, true⟩)
-        else if t.comCoin != 0 then
-          match getCoin s t.comCoin with
-          | none => throw (.panic "missing gas coin")
-          | some ci =>
-            if hasReserve ci then
-              if ci.volume < bal then pure (.error 103) else do
-              let r ← ask o (.saleReturn ci.volume ci.reserve ci.crr bal)
-              if ci.reserve - r < P.minReserve then pure (.error 116) else pure (.ok ⟨bal, r, false⟩)
-            else pure (.ok ⟨bal, bal, false⟩)
-        else pure (.ok ⟨bal, bal, false⟩)
-      else pure (.ok com)
-    match com' with
-    | .error c => fail c
-    | .ok cm =>
-      let (pc, cAmt, _) ← payCommission s payer t.comCoin cm
-      return { code := code, moves := pc, tags := [("tx.fail_fee", toString cAmt)] }
-
-/-- The checks of RunTx that precede the handler: first failing response code, `none` when all pass. -/
-def prologue (P : Params) (s : State) (block : Nat) (t : TxIn) : Option Nat :=
+/-- The checks of RunTx that precede the handler and are common to CheckTx and DeliverTx: first failing response code,
+    `none` when all pass.  `floor` is the CheckTx-only gas-price floor (0 in DeliverTx). -/
+def prologueF (P : Params) (s : State) (block : Nat) (t : TxIn) (floor : Nat) : Option Nat :=
   if t.tooLarge || t.rawLen > P.maxTxLen then some 105
   else if !t.dec then some 106
   else if t.typ == 37 && block ≤ P.lockStakeGate then some 124
   else if t.chain != P.chain then some 115
   else if !coinExists s t.comCoin then some 102
+  else if t.gasPrice < floor then some 114
   else if t.payLen > P.maxPayload then some 109
   else if t.svcLen > P.maxService then some 110
   else if !t.sigOk then some 106
@@ -512,40 +99,105 @@ def prologue (P : Params) (s : State) (block : Nat) (t : TxIn) : Option Nat :=
     | some c => some c
     | none => if nonceOf s t.sender + 1 != t.nonce then some 101 else none
 
-/-- Who may be debited by a transaction's own moves: its sender (for a check redemption also the check issuer,
-    carried in `issuer`). Pool moves pay out to anyone; the burn address and the zero address only receive. -/
-def Move.debitOk (sender : Addr) (issuer : Option Addr) : Move → Bool
-  | .transfer a _ _ v => decide (0 ≤ v) && (a == sender || issuer == some a)
-  | .mint a _ v => decide (0 ≤ v) || a == sender
-  | .feeBase payer v => decide (0 ≤ v) && (payer == sender || issuer == some payer)
-  | .feeBancor payer _ commission _ => decide (0 ≤ commission) && (payer == sender || issuer == some payer)
-  | .poolSell payer _ _ _ net out burn _ _ => decide (0 ≤ net) && decide (0 ≤ out) && decide (0 ≤ burn) && (payer == sender || issuer == some payer)
-  | .createCoin owner _ => owner == sender
-  | .burnTicker v => decide (0 ≤ v)
-  | .admin _ => true
+def prologue (P : Params) (s : State) (block : Nat) (t : TxIn) : Option Nat := prologueF P s block t 0
 
-def Move.isSetNonce : Move → Bool
-  | .admin (.setNonce _ _) => true
-  | _ => false
+/-- The price of the transaction in base-coin terms (after the conversion from the table coin), or the response code. -/
+def basePrice (s : State) (t : TxIn) : M (Except Nat Int) :=
+  let price := txPrice s t
+  if price == 0 then pure (.ok 0) else
+  match toBase s price with
+  | .error e => throw e
+  | .ok (.error c) => pure (.error c)
+  | .ok (.ok p) => if p ≤ 0 then pure (.error 119) else pure (.ok p)
 
-/-- Fee moves: the only moves a rejected transaction may make. -/
-def Move.isFee : Move → Bool
-  | .feeBase _ _ => true
-  | .feeBancor _ _ _ _ => true
-  | .poolSell _ _ _ _ _ _ _ toRewards _ => toRewards
-  | _ => false
+/-- The failure-fee branch of RunTx (deliver only). -/
+def failFee (P : Params) (o : Oracle) (s : State) (t : TxIn) (code : Nat) : M Outcome :=
+  let inTable := (t.gasPrice : Int) * (priceOf s "failed_tx" + ((t.payLen + t.svcLen : Nat) : Int) * priceOf s "payload_byte")
+  let conv : M (Except Nat Int) :=
+    if priceCoin s == 0 then pure (.ok inTable) else
+    match toBase s inTable with
+    | .error e => throw e
+    | .ok (.error c) => pure (.error c)
+    | .ok (.ok p) => if p ≤ 0 then pure (.error 119) else pure (.ok p)
+  match conv with
+  | .error e => throw e
+  | .ok (.error c) => pure { code := c }
+  | .ok (.ok inBase0) =>
+    match calcCommission P o s t.comCoin inBase0 with
+    | .error e => throw e
+    | .ok (.error c) => pure { code := c }
+    | .ok (.ok com) =>
+      -- the payer: the sender, for a check redemption the issuer of the check (decoded again; undecodable → DecodeError, no fee)
+      let payer? : Option Addr := if t.typ == 9 then t.issuer else some t.sender
+      match payer? with
+      | none => pure { code := 106 }
+      | some payer =>
+        let bal := balanceOf s payer t.comCoin
+        if bal ≤ 0 then pure { code := code } else
+        let capped : M (Except Nat Com) :=
+          if bal < com.commission then
+            if com.fromPool then
+              match poolRes s t.comCoin 0 with
+              | none => throw (.panic "missing commission pool")
+              | some (r0, r1) =>
+                match checkSwapQuote r0 r1 bal 0 false with
+                | .error e => throw e
+                | .ok (.error c) => pure (.error c)
+                | .ok (.ok x) => if x ≤ 0 then pure (.error 119) else pure (.ok ⟨bal, x, true⟩)
+            else if t.comCoin != 0 then
+              match getCoin s t.comCoin with
+              | none => throw (.panic "missing gas coin")
+              | some ci =>
+                if hasReserve ci then
+                  if ci.volume < bal then pure (.error 103) else
+                  match ask o (.saleReturn ci.volume ci.reserve ci.crr bal) with
+                  | .error e => throw e
+                  | .ok r => if ci.reserve - r < P.minReserve then pure (.error 116) else pure (.ok ⟨bal, r, false⟩)
+                else pure (.ok ⟨bal, bal, false⟩)
+            else pure (.ok ⟨bal, bal, false⟩)
+          else pure (.ok com)
+        match capped with
+        | .error e => throw e
+        | .ok (.error c) => pure { code := c }
+        | .ok (.ok cm) =>
+          match payCommission s payer t.comCoin cm with
+          | .error e => throw e
+          | .ok paid => pure { code := code, moves := paid.moves, tags := [("tx.fail_fee", toString paid.amount)] }
+
+/-- The ticker price burnt after a successful CreateCoin / CreateToken (converted like the price). -/
+def tickerBurn (s : State) (t : TxIn) : M (List Move × List (String × String)) :=
+  if t.typ == 5 || t.typ == 30 then
+    match toBase s ((t.gasPrice : Int) * tickerPrice s (t.str "d.Symbol")) with
+    | .error e => throw e
+    | .ok (.error _) => throw (.panic "ticker price conversion failed after Run changed the state")
+    | .ok (.ok v) =>
+      if v ≤ 0 then throw (.panic "ticker price not positive after Run changed the state")
+      else pure ([.burnTicker v], [("tx.burned_for_symbol", toString v)])
+  else pure ([], [])
+
+/-- Deliver-side execution of a validated transaction: pay the commission, run the type-specific part. -/
+def execReady (s : State) (rd : Ready) : M Outcome :=
+  match payCommission s rd.payer rd.coin rd.com rd.minOut with
+  | .error e => throw e
+  | .ok paid =>
+    match rd.exec paid.adj with
+    | .error e => throw e
+    | .ok (body, tags) =>
+      pure { code := 0, moves := paid.moves ++ body,
+             tags := [("tx.commission_amount", toString paid.amount), ("tx.commission_in_base_coin", toString paid.inBase)] ++ tags }
+
+def successMoves (t : TxIn) (r : Outcome) (burn : List Move) : List Move :=
+  r.moves ++ burn ++ [.admin (.setNonce t.sender t.nonce)]
 
 /-- Success path: the handler's moves, the ticker burn for new coins/tokens, and the nonce bump. -/
-def tickerBurn (s : State) (t : TxIn) : List Move :=
-  if t.typ == 5 || t.typ == 30 then [.burnTicker ((t.gasPrice : Int) * tickerPrice s (t.str "d.Symbol"))] else []
-
-def successMoves (s : State) (t : TxIn) (r : Outcome) : List Move :=
-  r.moves ++ tickerBurn s t ++ [.admin (.setNonce t.sender t.nonce)]
-
 def successOutcome (s : State) (t : TxIn) (r : Outcome) : M Outcome :=
-  if !((successMoves s t r).all (Move.debitOk t.sender none)) then throw (.panic "model: unauthorised debit in a handler")
-  else if r.moves.any Move.isSetNonce then throw (.panic "model: handler touched a nonce")
-  else pure { code := 0, moves := successMoves s t r, tags := r.tags }
+  match tickerBurn s t with
+  | .error e => throw e
+  | .ok (burn, btags) =>
+    if burn.any Move.isSetNonce then throw (.panic "model: ticker burn touched a nonce")
+    else if !((successMoves t r burn).all (Move.debitOk t.sender t.issuer)) then throw (.panic "model: unauthorised debit in a handler")
+    else if r.moves.any Move.isSetNonce then throw (.panic "model: handler touched a nonce")
+    else pure { code := 0, moves := successMoves t r burn, tags := r.tags ++ btags }
 
 /-- Failure path: the failure fee (or nothing), never a success code. -/
 def failureOutcome (P : Params) (o : Oracle) (s : State) (t : TxIn) (code : Nat) : M Outcome :=
@@ -553,24 +205,43 @@ def failureOutcome (P : Params) (o : Oracle) (s : State) (t : TxIn) (code : Nat)
   | .ok f =>
     if f.code == 0 then throw (.panic "model: failure path returned OK")
     else if !(f.moves.all Move.isFee) then throw (.panic "model: failure path made a non-fee move")
-    else if !(f.moves.all (Move.debitOk t.sender none)) then throw (.panic "model: failure fee charged to a third party")
+    else if !(f.moves.all (Move.debitOk t.sender t.issuer)) then throw (.panic "model: failure fee charged to a third party")
     else pure f
   | .error e => throw e
 
 /-- Everything after the prologue. -/
 def deliverBody (P : Params) (o : Oracle) (s : State) (block : Nat) (t : TxIn) : M Outcome :=
-  let price := txPrice s t
-  if price != 0 && priceCoin s != 0 then throw (.unmodelled "price table in a custom coin")
-  else if price != 0 && price ≤ 0 then pure { code := 119 }
-  else
+  match basePrice s t with
+  | .error e => throw e
+  | .ok (.error c) => pure { code := c }
+  | .ok (.ok price) =>
     match runData P o s block t price with
     | .error e => throw e
-    | .ok r => if r.code != 0 then failureOutcome P o s t r.code else successOutcome s t r
+    | .ok (.error c) => if c == 0 then throw (.panic "model: handler rejected with code 0") else failureOutcome P o s t c
+    | .ok (.ok rd) =>
+      match execReady s rd with
+      | .error e => throw e
+      | .ok r => successOutcome s t r
 
 /-- DeliverTx. -/
 def deliverTx (P : Params) (o : Oracle) (s : State) (block : Nat) (t : TxIn) : M Outcome :=
   match prologue P s block t with
   | some c => pure { code := c }
   | none => deliverBody P o s block t
+
+/-- CheckTx: the same prologue with the gas-price floor, the same validation, then the one-transaction-per-sender rule
+    of the mempool; nothing is executed, so the state is not touched.  Answers the response code. -/
+def checkTx (P : Params) (o : Oracle) (s : State) (block : Nat) (t : TxIn) (floor : Nat) (inMempool : Bool) : M Nat :=
+  match prologueF P s block t floor with
+  | some c => pure c
+  | none =>
+    match basePrice s t with
+    | .error e => throw e
+    | .ok (.error c) => pure c
+    | .ok (.ok price) =>
+      match runData P o s block t price with
+      | .error e => throw e
+      | .ok (.error c) => if c == 0 then throw (.panic "model: handler rejected with code 0") else pure c
+      | .ok (.ok _) => if inMempool then pure 113 else pure 0
 
 end Minter
